@@ -139,6 +139,7 @@ type Interp struct {
 	nTrivial    int
 	curFrame    *frame
 	forkSites   map[string]int
+	nLocalPaths int
 }
 
 type Observation struct {
